@@ -55,6 +55,15 @@ func (p *preKeeper) PostAccept(s erpc.PreSession) *erpc.Status {
 	return nil
 }
 
+// ageSetter gives accepted sessions a context age so short that replies cannot be written.
+type ageSetter struct{ age time.Duration }
+
+func (a *ageSetter) Name() string { return "c15age" }
+func (a *ageSetter) PostAccept(s erpc.PreSession) *erpc.Status {
+	s.SetContextAge(a.age)
+	return nil
+}
+
 type c15World struct {
 	w        *vt.World
 	proto    vt.NamedProto
@@ -124,6 +133,7 @@ func (x *c15World) battery() map[string]vt.StatusTriple {
 var c15Steps = []string{
 	"ok-call", "closed-call", "closed-push", "unknown-route", "bad-body", "panic", "badtype", "presend-outside", "dial-fail", "cut-mid-call",
 	"truncated-reply-mid-call", "garbage-reply-mid-call", "session-age-expires-mid-call",
+	"reply-404-write-times-out", "reply-400-write-times-out", "reply-500-write-times-out",
 	"proxy-call-down", "proxy-push-down", "proxy-call-dies", "proxy-call-ok", "auth-reject", "secure-wrong-key", "overload-reject",
 }
 
@@ -197,6 +207,35 @@ func (x *c15World) step(name string) {
 		raw.Close()
 		vt.WaitClosed(cmd.Done())
 		vt.WaitClosed(sess.CloseNotify())
+	case "reply-404-write-times-out", "reply-400-write-times-out", "reply-500-write-times-out":
+		// the error reply itself cannot be written (the reply context has expired), so the
+		// framework falls back to a second error reply: none of this may touch shared statuses
+		p := x.w.Peer(erpc.PeerConfig{}, &ageSetter{age: time.Nanosecond})
+		r, _ := registerLib(p)
+		l := x.w.Connect(x.cli, p, x.proto, nil)
+		if l.A == nil || l.B == nil {
+			return
+		}
+		var cmd erpc.CallCmd
+		switch name {
+		case "reply-404-write-times-out":
+			cmd = l.A.AsyncCall("/no/such/route", &LibArg{}, new(LibRes), make(chan erpc.CallCmd, 1))
+		case "reply-400-write-times-out":
+			cmd = l.A.AsyncCall(r, []byte("{{{"), new(LibRes), make(chan erpc.CallCmd, 1), erpc.WithBodyCodec('j'))
+		default:
+			cmd = l.A.AsyncCall(r, &LibArg{Rid: "w", Act: "panic-s"}, new(LibRes), make(chan erpc.CallCmd, 1))
+		}
+		// no reply can arrive: give the serving side time to try, then drop the link
+		vt.WaitUntilFor(5*time.Millisecond, func() bool {
+			select {
+			case <-cmd.Done():
+				return true
+			default:
+				return false
+			}
+		})
+		l.Pair.Cut()
+		vt.WaitClosed(cmd.Done())
 	case "session-age-expires-mid-call":
 		// a read deadline (session age) ends the session with a timeout error while a call is pending
 		p := x.w.Peer(erpc.PeerConfig{DefaultSessionAge: 3 * time.Millisecond})
@@ -264,7 +303,7 @@ func (x *c15World) step(name string) {
 	}
 }
 
-const ruleC15 = "history = 1-12 steps drawn from {successful call, call/push on a closed session, unknown route, undecodable body, handler panic, frame of unsupported type, PreSend/PreCall outside the accept phase, refused dial, connection cut while a call waits, connection ending with a non-EOF read error while a call waits (truncated reply, over-limit garbage, session-age read deadline), proxied call and proxied push with the backend session closed, proxied call whose backend connection is cut mid-call, proxied call that succeeds, auth rejection, secure plugin with a wrong key, overloader rejection}; oracle (a): code/msg/cause of every predefined status (verif accessor) is identical before the history and after every step; oracle (b): a fixed battery of failing operations on fresh sessions yields identical triples before and after the history; non-trivial = the history contains a step that hands a predefined status by pointer to plugin or user code (proxy with backend down, closed-session call/push); distinct by history"
+const ruleC15 = "history = 1-12 steps drawn from {successful call, call/push on a closed session, unknown route, undecodable body, handler panic, frame of unsupported type, PreSend/PreCall outside the accept phase, refused dial, connection cut while a call waits, connection ending with a non-EOF read error while a call waits (truncated reply, over-limit garbage, session-age read deadline), error replies (404 / 400 / 500) that cannot be written because the reply context expired, proxied call and proxied push with the backend session closed, proxied call whose backend connection is cut mid-call, proxied call that succeeds, auth rejection, secure plugin with a wrong key, overloader rejection}; oracle (a): code/msg/cause of every predefined status (verif accessor) is identical before the history and after every step; oracle (b): a fixed battery of failing operations on fresh sessions yields identical triples before and after the history; non-trivial = the history contains a step that hands a predefined status by pointer to plugin or user code (proxy with backend down, closed-session call/push); distinct by history"
 
 func TestC15StatusImmutable(t *testing.T) {
 	rec := vt.NewRec(t, "C15", "immutable", ruleC15)
@@ -276,7 +315,7 @@ func TestC15StatusImmutable(t *testing.T) {
 		steps := rapid.SliceOfN(rapid.SampledFrom(c15Steps), 1, 12).Draw(t, "steps")
 		nt := false
 		for _, s := range steps {
-			if strings.HasPrefix(s, "proxy-") && s != "proxy-call-ok" || strings.HasPrefix(s, "closed-") || strings.HasSuffix(s, "-mid-call") {
+			if strings.HasPrefix(s, "proxy-") && s != "proxy-call-ok" || strings.HasPrefix(s, "closed-") || strings.HasSuffix(s, "-mid-call") || strings.HasSuffix(s, "-times-out") {
 				nt = true
 			}
 			rec.Class("step="+s, 1)
